@@ -73,6 +73,21 @@ ImgBlockTKey(p)    == NewTKey(23, BC(p[3]) \o BC(p[2]) \o BC(p[1]))
 LMBlockTKey(sc, p) == NewTKey(186, <<sc>> \o BC(p[3]) \o BC(p[2]) \o BC(p[1]))
 LMIndexTKey(l)     == NewTKey(187, B8(l))
 
+\* growth (gap C06-5): the remaining key classes
+U64Complement(l)   == <<65535 - l[1], 65535 - l[2], 65535 - l[3], 65535 - l[4]>>   \* MaxUint64 - l
+U32Complement(u)   == <<65535 - u[1], 65535 - u[2]>>                               \* MaxUint32 - u
+SzSizeLabelTKey(i, sz, l) == NewTKey(97, <<i>> \o B4(U32Complement(sz)) \o B8(l))    \* labelsz: index type, size (largest first), label
+SzLabelTKey(i, l)  == NewTKey(98, <<i>> \o B8(l))                                  \* labelsz: index type, label
+ROITKey(p, span)   == NewTKey(90, BC(p[3]) \o BC(p[2]) \o BC(p[1]) \o B4(span))     \* roi: run start <<x0, y, z>> and length
+\* imagetile: not built by NewTKey - plane (7 bytes: dimensions, number of axes, axes), scaling,
+\* the byte 3, tile coordinate; the plane of a 3d volume starts with 3, 2
+PlaneBytes(a)      == <<3, 2, a[1], a[2], 0, 0, 0>>
+TileTKey(a, sc, p) == PlaneBytes(a) \o <<sc, 3>> \o BC(p[3]) \o BC(p[2]) \o BC(p[1])
+TarSVTKey(digits, ext) == NewTKey(133, digits \o <<46>> \o ext)                     \* tarsupervoxels: "<supervoxel>.<ext>", no terminator
+LMAffinitiesTKey(l) == NewTKey(188, B8(l))
+LMMutcacheTKey(l, m) == NewTKey(240, B8(l) \o B8(U64Complement(m)))                \* label, mutation id (newest first)
+PayloadlessTKey(class) == NewTKey(class, <<>>)    \* labelmap 237 238 239, neuronjson 180 181 182, imageblk 24
+
 \* ---- full keys ----
 InstPrefix(i) == <<DataPrefix>> \o B4(i)
 Key(i, tk, v, c, m) == InstPrefix(i) \o tk \o B4(v) \o B4(c) \o <<m>>
